@@ -83,6 +83,12 @@ SEEDS = {
 
 # ---- second round (agents were told the first-round changes and asked for different root causes)
 SEEDS.update({
+ "C01-3": ("truncate does the in-memory truncation first and returns early, writing nothing, when no record was evicted (same mechanism as C04-1)",
+           "an empty queue truncated into the future, then a restart before any GC that really deletes files"),
+ "C01-4": ("truncate runs GC and persist BEFORE the in-memory truncation",
+           ">= 2 WAL files, a file-releasing truncate, then as the very next truncate a future-truncation of an empty queue (the GC snapshots its stale position after the Truncate entry), restart"),
+ "C01-5": ("record_empty_queues_position writes last_position().unwrap_or_default() instead of next_position()",
+           "a queue that is empty with next position > 0, roll-over, a GC that really deletes files, restart: the queue comes back one position lower"),
  "C02-4": ("the GC guard `_file_number` is taken AFTER record_empty_queues_position instead of before",
            "all queues empty, >= 2 files, GC position entries crossing a file boundary (cursor near the file end or 40 KB queue names), then crash or restart"),
  "C03-3": ("Directory::gc collects the unused files first and unlinks them newest-first",
